@@ -149,7 +149,7 @@ pub fn check_interior(sh: &mut Shard, a: &IG, lat: &Lat, verbose: bool) {
         Err(p) => {
             let loc = last_panic_loc();
             // known finding: the sweep behind polygon interior points loses track of a segment (about 1 in 10^5 polygons)
-            let cls = if p.starts_with("segment not found in active-vec-set") && loc.contains("algorithm/sweep/vec_set.rs") { "interior_point_sweep_panic" } else { "-" };
+            let cls = "-"; // (the sweep panic behind polygon interior points was repaired in /repo)
             sh.violation(&format!("interior_point.panic|{kind}|{cls}"), detail("interior_point.panic", a, None, lat, "no panic".into(), p, json!({"at": loc})));
             return;
         }
